@@ -50,6 +50,10 @@ FIXED = [
     "fixed: property=C14 ee17f4d a zero loop step given through an int variable (`int s = 0; for i in 0..5 step s`) was accepted",
     "fixed: property=C14 033b49c a bare bundle comparison in an assignment (`lamp.enable = bundle > 0;`) was not diagnosed (unrelated DataFormatError or acceptance)",
     "fixed: property=C14 dc6fac7 `chest.output[\"signal-W\"]` (reserved signal in a bundle selection) was accepted",
+    "fixed: property=C10 57d79bd CSE merged `(b > 5) : b` with `(b > 5) : 1` (decider key ignored copy_count_from_input); the second bundle carried the first one's counts",
+    "fixed: property=C20 35f3957 a Bundle name whose node CSE merged into an identical earlier bundle lost its label and output anchor (alias map only covered scalar references)",
+    "fixed: property=C18 ae4f4b2 poles were linked only to their nearest neighbours, leaving clusters of grid poles and wire relays as separate electric networks",
+    "fixed: property=C18 52564f9 the pole grid was laid out before the layout from an entity-count estimate: about a third of the consumers of generated programs lay outside every supply area",
     "fixed: property=C01 832242e `(c : k) && x` / `(c : k) || (d : j)` with constants other than 0/1 took the boolean shortcut (x*y, (x+y)>0) and yielded k or 0 instead of 1",
     "fixed: property=C01 7701d37 a comparison with an integer literal on the left (`3 < a`) was emitted as `signal-0 < a`",
 ]
@@ -175,20 +179,14 @@ add("C20", K1, K1_WHAT, "K1",
 
 
 # ---- C18
-add("C18", "C18-pre-layout-pole-grid-leaves-consumers-unpowered",
-    "with --power-poles T some electricity consumers lie outside every supply area: the pole grid is laid out "
-    "before the layout from an entity-count estimate (spacing 2 x configured supply radius, big poles configured "
-    "with radius 5 while the game's is 2), grid positions on occupied tiles are skipped and unused poles are "
-    "trimmed by centre distance",
-    "PowerPlanner.add_power_pole_grid / LayoutPlanner._trim_power_poles; clause: an electric entity's collision box "
-    "intersects no supply square (circuit, user entities, copper reach and pole-free clauses all hold)",
-    witness("C18-pre-layout-pole-grid-leaves-consumers-unpowered"))
-add("C18", "C18-pole-grid-not-one-electric-network",
-    "the poles of a --power-poles build do not form one electric network: relay poles inserted for circuit routing "
-    "and grid poles next to trimmed or skipped grid positions are out of copper reach of the rest",
-    "BlueprintEmitter._materialize_power_grid / _connect_pole_to_nearest connect each pole only to its nearest "
-    "neighbours within reach; clause: more than one copper component over all electric poles",
-    witness("C18-pole-grid-not-one-electric-network"))
+add("C18", "C18-no-free-tile-for-a-pole-next-to-a-consumer",
+    "with --power-poles big (2x2 pole, 4x4 supply area) a consumer in a densely packed row of combinators can have no "
+    "free 2x2 tile within the supply distance; the compiler warns 'No free tile for a big power pole near (x, y); the "
+    "entity there stays unpowered' and emits the blueprint with that entity outside every supply area",
+    "PowerPlanner.complete_power_grid: the coverage pass runs after the layout and cannot move entities; attributed "
+    "only to uncovered entities whose position the compiler's own warning names (any other uncovered consumer, and "
+    "any split grid, is a violation)",
+    witness("C18-no-free-tile-for-a-pole-next-to-a-consumer"))
 
 
 # ---- C12
